@@ -226,7 +226,14 @@ func (w *World) applySetCookies(b string, rec *httptest.ResponseRecorder) (delet
 func (w *World) StartLogin(a M) M {
 	b := a["b"].(string)
 	o := M{"class": "error", "att": "none", "client": false, "redirect": false, "scopes": false, "stateInURL": false, "stateCookie": false, "challenge": "none"}
-	rec, pnc := serve(w.login, httptest.NewRequest(http.MethodGet, "https://rp.example.test/login", nil))
+	// query parameters somebody put on the link to the login URL
+	link := "https://rp.example.test/login"
+	if q, _ := a["q"].(string); q != "" && q != "none" {
+		link += "?" + map[string]string{"challenge": "code_challenge=attacker-chosen-challenge-0123456789abcdefghijklmnop", "method": "code_challenge_method=plain",
+			"state": "state=attacker-state", "redirect": "redirect_uri=https%3A%2F%2Fevil.example.test%2Fcb", "client": "client_id=other-client",
+			"scope": "scope=openid+admin"}[q]
+	}
+	rec, pnc := serve(w.login, httptest.NewRequest(http.MethodGet, link, nil))
 	if pnc != "" {
 		o["class"], o["detail"] = "panic", pnc
 		return o
